@@ -16,6 +16,9 @@ list through EncodedMethod.set_instructions() (prepend 1 nop, prepend 2 nops, in
 replace the list by itself), build a NEW MethodAnalysis of the same EncodedMethod and judge it against the reference
 decoded from the edited bytes (keys end in ":after:set_instructions"; histories in which a switch offset becomes
 2 mod 4 are counted, not judged: misaligned payloads are not well-formed).
+No-op history (plans again-*): the SAME parsed code analysed again without any edit -- a stand-alone MethodAnalysis(vm, em)
+and a second Analysis(vm) over the same DEX object -- judged exactly like the first analysis (keys end in
+":second-analysis"); every shipped method is likewise analysed twice.
 Each generated method is serialised by gen/dexgen (256 static methods per DEX), loaded with DEX() + Analysis() and the
 basic blocks are compared with ref/cfg.judge_c10:
   blocks contiguous, disjoint, ordered, covering [0, code size) and yielding exactly the instructions there;
